@@ -405,6 +405,17 @@ impl Generator {
             "C09" => self.gen_c09(&mut rng, &info, &mut trace),
             _ => self.gen_c01(&mut rng, &info, &mut trace),
         }
+        if prop == "C03" && trace.surgery.iter().any(|s| matches!(s, Surgery::MacRomanCmap { .. })) {
+            // subsets that retain the colliding glyphs, with every cmap target
+            let n = info.num_glyphs.min(60);
+            let ids: Vec<u16> = (0..n).collect();
+            trace.ops.push(Op::Subset { ids: ids.clone() });
+            trace.ops.push(Op::PrinceSubset {
+                ids,
+                target: 1 + rng.below(4) as u8,
+                cid: false,
+            });
+        }
         if trace.surgery.iter().any(|s| !matches!(s, Surgery::FeatureVariations { .. } | Surgery::FeatureVariationsMulti { .. })) {
             // installed tables exist only in the disk model
             trace.mode = Mode::Provider;
@@ -1315,11 +1326,11 @@ fn gen_surgery_gpos(rng: &mut Rng, info: &FontInfo) -> Option<Surgery> {
 /// run sees it (tables installed, text generation focused on the glyphs morx is keyed on).
 fn gen_install(rng: &mut Rng, info: &FontInfo, prop: &str) -> Option<(FontInfo, Vec<Surgery>)> {
     // percentages: morx, bitmaps, vertical
-    let (p_morx, p_kern, p_bitmap, p_vert, p_compact) = match prop {
-        "C02" => (14, 8, 0, 10, 3),
-        "C03" => (8, 3, 8, 8, 4),
-        "C09" => (0, 0, 0, 6, 22),
-        _ => (7, 4, 8, 6, 6),
+    let (p_morx, p_kern, p_bitmap, p_vert, p_compact, p_macroman) = match prop {
+        "C02" => (14, 8, 0, 10, 3, 1),
+        "C03" => (8, 3, 8, 8, 4, 4),
+        "C09" => (0, 0, 0, 6, 22, 4),
+        _ => (7, 4, 8, 6, 6, 3),
     };
     let mut surgeries = Vec::new();
     let mut focus: Option<Vec<u32>> = None;
@@ -1375,6 +1386,13 @@ fn gen_install(rng: &mut Rng, info: &FontInfo, prop: &str) -> Option<(FontInfo, 
                 extended: rng.pct(30),
             });
         }
+    }
+    if rng.pct(p_macroman) && info.num_glyphs > 12 && info.has("cmap") {
+        // 7 glyphs: 256 is not a multiple, so folded codes name different glyphs
+        let first = 1 + rng.below(u64::from(info.num_glyphs - 8).min(40)) as u16;
+        surgeries.push(Surgery::MacRomanCmap {
+            glyphs: (first..first + 7).collect(),
+        });
     }
     if rng.pct(p_compact) && info.has("hhea") && info.has("hmtx") && info.num_glyphs >= 2 {
         let n = info.num_glyphs;
